@@ -1444,3 +1444,56 @@ def rule_acquire_effective(ctx: Ctx, clause: str, rule="TS.acquire-effective"):
     if n < 3:
         ctx.soft_fail(f"{rule}: only {n} plug/queue acquisitions found")
     return n
+
+
+# ------------------------------------------------------------------------------------------ callables passed as values
+def resolve_callable(repo: Repo, fn: Func, expr: ast.AST) -> Optional[Func]:
+    """The function a callable VALUE denotes: a lambda (a synthetic Func around it), the name of a nested / module-level
+    function, `self.m`. Used where a rule needs 'the function handed to X as its filter / key / reducer' rather than a
+    function of a particular name."""
+    e = flow.core(expr)
+    if isinstance(e, ast.Lambda):
+        return Func(fn.module, f"{fn.qualname}.<lambda@{getattr(e, 'lineno', 0)}>", e, None, fn)
+    if isinstance(e, ast.Name):
+        f = fn
+        while f is not None:
+            c = fn.module.funcs.get(f"{f.qualname}.{e.id}")
+            if c is not None:
+                return c
+            f = f.outer
+        c = fn.module.funcs.get(e.id)
+        if c is not None and c.cls is None:
+            return c
+        tgt = fn.module.imports.get(e.id)
+        if tgt:
+            modname, _, name = tgt.rpartition(".")
+            tm = repo.by_modname.get(modname)
+            if tm is not None and name in tm.funcs:
+                return tm.funcs[name]
+    if isinstance(e, ast.Attribute) and isinstance(e.value, ast.Name) and e.value.id in ("self", "cls"):
+        top = fn
+        while top.outer is not None:
+            top = top.outer
+        if top.cls is not None:
+            return repo.method(top.cls, e.attr)
+    return None
+
+
+def callable_argument(repo: Repo, fn: Func, callee: str, kw: str, pos: Optional[int] = None) -> Optional[Func]:
+    """The function passed as keyword `kw` (or positional `pos`) to the first call of `callee` inside `fn`."""
+    for c in ast.walk(fn.node):
+        if isinstance(c, ast.Call):
+            nm = c.func.attr if isinstance(c.func, ast.Attribute) else getattr(c.func, "id", None)
+            if nm != callee:
+                continue
+            v = None
+            for k in c.keywords:
+                if k.arg == kw:
+                    v = k.value
+            if v is None and pos is not None and len(c.args) > pos:
+                v = c.args[pos]
+            if v is not None:
+                r = resolve_callable(repo, fn, v)
+                if r is not None:
+                    return r
+    return None
